@@ -1118,7 +1118,13 @@ impl<'a, 'b> GeneratorState<'a> {
         self.local_label_counter_if += 1;
         let ifend_label = format!(".ifend{}", self.local_label_counter_if);
         match else_body {
+            // A labelled break / continue is a goto target: it must be emitted, not folded into the test
             None => match body.statement {
+                _ if body.label.is_some() => {
+                    self.generate_condition(condition, pos, true, &ifend_label, false)?;
+                    self.generate_statement(body)?;
+                    self.label(&ifend_label)?;
+                }
                 Statement::Break => {
                     let brk_label = {
                         match self.loops.last() {
